@@ -115,6 +115,9 @@ func (this *OKHandler) MakeDepositProposal(service *native.NativeService) (*scom
 	}
 
 	prt := rootmulti.DefaultProofRuntime()
+	if err = scom.CheckIavlExistenceProof(proof.Ops); err != nil {
+		return nil, fmt.Errorf("Cosmos MakeDepositProposal, proof shape error: %s", err)
+	}
 	err = prt.VerifyValue(&proof, myHeader.Header.AppHash, proofValue.Kp, ethcrypto.Keccak256(proofValue.Value))
 	if err != nil {
 		return nil, fmt.Errorf("Cosmos MakeDepositProposal, proof error: %s", err)
